@@ -24,6 +24,8 @@ type SpecEnv struct {
 	nq      *int
 	visHeap map[string]string // loop: range value name -> visited heap
 	li      *loopInfo
+	assumeMode bool
+	facts   *[]Term // well-formedness facts about references read while evaluating
 }
 
 func (env *SpecEnv) withState(st *State) *SpecEnv {
@@ -42,15 +44,113 @@ func (env *SpecEnv) bind(name string, v *Val) *SpecEnv {
 	return &n
 }
 
+// evalSpecAssume evaluates a clause that is going to be assumed (polarity matters only for
+// how well-formedness facts about quantified reads are attached, never for soundness).
+func (fr *Frame) evalSpecAssume(e ast.Expr, env *SpecEnv) (Term, error) {
+	ne := *env
+	ne.assumeMode = true
+	return fr.evalSpecBool(e, &ne)
+}
+
 func (fr *Frame) evalSpecBool(e ast.Expr, env *SpecEnv) (Term, error) {
-	v, err := env.eval(e)
+	var facts []Term
+	ne := *env
+	ne.facts = &facts
+	v, err := ne.eval(e)
 	if err != nil {
 		return "", err
 	}
 	if v.S != SBool {
 		return "", fmt.Errorf("contract expression is not boolean (sort %s)", v.S)
 	}
+	// the collected facts are instances of the heap well-formedness invariant
+	// ("every reference stored in a heap version is allocated"): valid, so they may be assumed
+	for _, f := range dedupe(facts) {
+		if i := strings.Index(f, "\x00"); i >= 0 {
+			f = f[:i]
+		}
+		fr.vc.assume("true", f)
+	}
 	return v.T, nil
+}
+
+func dedupe(ts []Term) []Term {
+	seen := map[Term]bool{}
+	var out []Term
+	for _, t := range ts {
+		if !seen[t] {
+			seen[t] = true
+			out = append(out, t)
+		}
+	}
+	return out
+}
+
+// refFact records that a reference read from heapTerm is allocated. The instance fact is
+// followed (after a "\x00" separator) by the general axiom for the whole heap version, which is
+// used instead when the instance mentions a quantified variable.
+func (env *SpecEnv) refFact(v Term, typ types.Type, heapTerm Term) {
+	if env.facts == nil || typ == nil {
+		return
+	}
+	isSlice := false
+	switch typ.Underlying().(type) {
+	case *types.Pointer, *types.Map, *types.Chan, *types.Signature:
+	case *types.Slice:
+		isSlice = true
+	default:
+		return
+	}
+	ref := v
+	if isSlice {
+		ref = sx("sarr", v)
+	}
+	bound := env.vc().allocBound(heapTerm, env.heap("$alloc", SInt))
+	hs := env.vc().sortOfHeapTerm(heapTerm)
+	axiom := ""
+	wrap := func(t Term) Term {
+		if isSlice {
+			return sx("sarr", t)
+		}
+		return t
+	}
+	switch {
+	case strings.HasPrefix(hs, "(Array Int (Array "):
+		// two-level heap (map values / slice elements): (Array Int (Array K V))
+		inner := strings.TrimSuffix(strings.TrimPrefix(hs, "(Array Int "), ")")
+		ks := arrayKeySort(inner)
+		if ks != "" {
+			e := sel(sel(heapTerm, "m!w"), "k!w")
+			axiom = fmt.Sprintf("(forall ((m!w Int) (k!w %s)) (! (<= %s %s) :pattern (%s)))", ks, wrap(e), bound, e)
+		}
+	case strings.HasPrefix(hs, "(Array Int "):
+		e := sel(heapTerm, "r!w")
+		axiom = fmt.Sprintf("(forall ((r!w Int)) (! (<= %s %s) :pattern (%s)))", wrap(e), bound, e)
+	}
+	*env.facts = append(*env.facts, sx("<=", ref, bound)+"\x00"+axiom)
+}
+
+// arrayKeySort extracts K from "(Array K V)".
+func arrayKeySort(s Sort) Sort {
+	s = strings.TrimPrefix(s, "(Array ")
+	if strings.HasPrefix(s, "(") {
+		depth := 0
+		for i, c := range s {
+			if c == '(' {
+				depth++
+			} else if c == ')' {
+				depth--
+				if depth == 0 {
+					return s[:i+1]
+				}
+			}
+		}
+		return ""
+	}
+	if i := strings.Index(s, " "); i > 0 {
+		return s[:i]
+	}
+	return ""
 }
 
 func (env *SpecEnv) U() *Universe { return env.fr.vc.U }
@@ -310,7 +410,9 @@ func (env *SpecEnv) fieldStep(cur *Val, i int) (*Val, error) {
 			return &Val{T: env.vc().faddr(hn, cur.T), S: SInt, Typ: ft, Addr: true}, nil
 		}
 		s := U.sortOf(ft)
-		return &Val{T: sel(env.heap(hn, arrSort(SInt, s)), cur.T), S: s, Typ: ft}, nil
+		ht := env.heap(hn, arrSort(SInt, s))
+		env.refFact(sel(ht, cur.T), ft, ht)
+		return &Val{T: sel(ht, cur.T), S: s, Typ: ft}, nil
 	}
 	info := U.structInfo[U.sortOf(T)]
 	return &Val{T: sx(info.Fields[i], cur.T), S: U.sortOf(ft), Typ: ft}, nil
@@ -367,13 +469,17 @@ func (env *SpecEnv) index(base, idx *Val) (*Val, error) {
 	}
 	switch t := base.Typ.Underlying().(type) {
 	case *types.Map:
+		idx = env.rvalue(idx)
 		mh := env.fr.mapHeaps(base.Typ)
 		has := env.fr.mapHas(env.cur, base.T, mh, idx.T)
-		return &Val{T: ite(has, env.fr.mapGet(env.cur, base.T, mh, idx.T), env.fr.zero(t.Elem())), S: mh.vs, Typ: t.Elem()}, nil
+		mv := ite(has, env.fr.mapGet(env.cur, base.T, mh, idx.T), env.fr.zero(t.Elem()))
+		env.refFact(mv, t.Elem(), env.heap(mh.val, mh.valS))
+		return &Val{T: mv, S: mh.vs, Typ: t.Elem()}, nil
 	case *types.Slice:
 		es := U.sortOf(t.Elem())
 		hn, hs := U.elemHeapT(t.Elem())
-		return &Val{T: sel(sel(env.heap(hn, hs), sx("sarr", base.T)), sx("+", sx("soff", base.T), idx.T)), S: es, Typ: t.Elem()}, nil
+		env.refFact(sel(sel(env.heap(hn, hs), sx("sarr", base.T)), sx("eidx", sx("soff", base.T), idx.T)), t.Elem(), env.heap(hn, hs))
+		return &Val{T: sel(sel(env.heap(hn, hs), sx("sarr", base.T)), sx("eidx", sx("soff", base.T), idx.T)), S: es, Typ: t.Elem()}, nil
 	case *types.Array:
 		return &Val{T: sx("aget!"+base.S, base.T, idx.T), S: U.sortOf(t.Elem()), Typ: t.Elem()}, nil
 	}
@@ -594,14 +700,45 @@ func (env *SpecEnv) callExpr(c *ast.CallExpr) (*Val, error) {
 		} else {
 			bv = mathInt(bn)
 		}
-		body, err := env.bind(id.Name, bv).eval(c.Args[2])
+		var inner []Term
+		benv := env.bind(id.Name, bv)
+		if env.facts != nil {
+			benv.facts = &inner
+		}
+		body, err := benv.eval(c.Args[2])
 		if err != nil {
 			return nil, err
 		}
-		if fn.Name == "forall" {
-			return boolVal(fmt.Sprintf("(forall ((%s %s)) %s)", bn, s, imp(wf, body.T))), nil
+		// facts that mention the bound variable stay inside the quantifier (they are valid, so
+		// guarding the body with them changes nothing semantically); the others move out
+		// a fact that mentions the bound variable cannot leave the quantifier: it is replaced by
+		// the general well-formedness axiom of the heap version it was read from
+		var local []Term // valid facts that mention the bound variable and have no heap-level axiom
+		for _, f := range dedupe(inner) {
+			inst, axiom := f, ""
+			if i := strings.Index(f, "\x00"); i >= 0 {
+				inst, axiom = f[:i], f[i+1:]
+			}
+			if env.facts == nil {
+				continue
+			}
+			if strings.Contains(inst, bn) {
+				if axiom != "" {
+					*env.facts = append(*env.facts, axiom)
+				} else {
+					local = append(local, inst)
+				}
+			} else {
+				*env.facts = append(*env.facts, f)
+			}
 		}
-		return boolVal(fmt.Sprintf("(exists ((%s %s)) %s)", bn, s, and(wf, body.T))), nil
+		if fn.Name == "forall" {
+			if env.assumeMode {
+				return boolVal(fmt.Sprintf("(forall ((%s %s)) %s)", bn, s, imp(wf, and(append(local, body.T)...)))), nil
+			}
+			return boolVal(fmt.Sprintf("(forall ((%s %s)) %s)", bn, s, imp(and(append([]Term{wf}, local...)...), body.T))), nil
+		}
+		return boolVal(fmt.Sprintf("(exists ((%s %s)) %s)", bn, s, and(append([]Term{wf}, append(local, body.T)...)...))), nil
 	case "len", "cap":
 		a, err := arg(0)
 		if err != nil {
@@ -741,7 +878,7 @@ func (env *SpecEnv) callExpr(c *ast.CallExpr) (*Val, error) {
 		}
 		hn, hs := U.elemHeapT(types.Typ[types.Uint8])
 		row := sel(env.heap(hn, hs), sx("sarr", s.T))
-		at := func(k int) Term { return sel(row, sx("+", sx("soff", s.T), sx("+", off.T, num(int64(k))))) }
+		at := func(k int) Term { return sel(row, sx("eidx", sx("soff", s.T), sx("+", off.T, num(int64(k))))) }
 		switch fn.Name {
 		case "byteat":
 			return mathInt(at(0)), nil
@@ -767,6 +904,13 @@ func (env *SpecEnv) callExpr(c *ast.CallExpr) (*Val, error) {
 		t, err := env.resolveType(c.Args[1])
 		if err != nil {
 			return nil, err
+		}
+		if env.facts != nil {
+			switch t.Underlying().(type) {
+			case *types.Pointer, *types.Map, *types.Chan:
+				// a reference held in an interface value is allocated
+				*env.facts = append(*env.facts, imp(eq(sx("itag", a.T), num(int64(U.tagOf(t)))), sx("<=", sx("ival", a.T), env.heap("$alloc", SInt)))+"\x00")
+			}
 		}
 		return &Val{T: env.fr.ifaceUnbox(a.T, t), S: U.sortOf(t), Typ: t}, nil
 	case "visited":
